@@ -896,6 +896,9 @@ func (ex *Exec) evalSpecFunc(name string, call *ast.CallExpr, st *State) []Value
 		a := ex.eval(call.Args[0], st).scalar()
 		sub := st.clone()
 		sub.assume(a)
+		if sub.dead {
+			return []Value{boolV(tTrue)}
+		}
 		n0 := len(sub.pc)
 		b := ex.eval(call.Args[1], sub).scalar()
 		if !sub.dead {
@@ -1052,7 +1055,7 @@ func (ex *Exec) evalSpecFunc(name string, call *ast.CallExpr, st *State) []Value
 			a = freshVar("noaead", sortRef)
 		}
 		n := mkApp("aead!keylen", sortInt, a)
-		return []Value{{T: types.NewSlice(types.Typ[types.Uint8]), L: map[string]*Term{".ref": mkApp("aead!keyref", sortRef, a), ".off": mkApp("aead!keyoff", sortInt, a), ".len": n, ".cap": n}}}
+		return []Value{{T: types.NewSlice(types.Typ[types.Uint8]), L: map[string]*Term{".ref": mkApp("aead!keyref", sortRef, a), ".off": mkApp("aead!keyoff", sortInt, a), ".len": n, ".cap": mkApp("aead!keycap", sortInt, a)}}}
 	case "iter":
 		if len(ex.rangeIdx) == 0 {
 			unsupp("iter() outside a range loop")
